@@ -5,6 +5,7 @@ import Gaftools.Drv.Realign
 import Gaftools.Drv.Conv
 import Gaftools.Drv.Order
 import Gaftools.Drv.Bgzf
+import Gaftools.Drv.GraphExtra
 /-! The correspondence driver: one JSON object per line in, one per line out. -/
 open Lean Gaftools.Drv
 
@@ -30,6 +31,7 @@ def dispatch (op : String) (j : Json) : Except String Json :=
   | "order.run" => Order.opRun j
   | "order.command" => Order.opCommand j
   | "bgzf.resolve" => Bgzf.opResolve j
+  | "graph.extra" => GraphExtra.opExtra j
   | _ => throw s!"unknown op {op}"
 
 partial def loop (h : IO.FS.Stream) (out : IO.FS.Stream) : IO Unit := do
